@@ -574,6 +574,16 @@ func (s *sys) indexFlushFault(shard, step int) error {
 	return err
 }
 
+// indexEvictSeq: the LRU sequence cache of one shard's index database loses the entry of one metric
+// (capacity eviction / TTL expiry; seam index/zz_verif_c09e.go). The next createSeriesID of the metric
+// takes the miss branch: max(kv family ∪ mutable ∪ immutable postings) + 1.
+func (s *sys) indexEvictSeq(shard, metricID int) string {
+	if index.VerifEvictSeriesSequence(s.shards[shard], metric.ID(metricID)) {
+		return "evicted"
+	}
+	return "absent"
+}
+
 func okOut(err error) string {
 	if err != nil {
 		return errKind(err)
